@@ -2,9 +2,9 @@
     wiped.  Property theorems only; the model is Addr/Lock.v, the proofs are in
     Addr/LockProofs.v.
 
-    The model is parameterised by seven facts regenerated from waddrmgr's
+    The model is parameterised by nine facts regenerated from waddrmgr's
     source on every run (Generated/LockFacts.v, instantiated as [the_facts] in
-    Addr/LockCorr.v).  [C05_facts_of_this_tree] requires all seven to be true and is
+    Addr/LockCorr.v).  [C05_facts_of_this_tree] requires all nine to be true and is
     proved by [eq_refl]: on a tree where one of them is false this file stops
     compiling at that theorem (proof-side detection), while the
     [C05_refuted_*] theorems in front of it, which hold on every tree, show for
@@ -14,9 +14,11 @@ Local Open Scope N_scope.
 
 (* ------------------------------------------------------------------ witnesses (tree independent) *)
 
-Definition mkF (a b c d e f g : bool) : facts :=
+Definition mkF9 (a b c d e f g h i : bool) : facts :=
   {| f_cache_checked := a; f_lock_purges_cache := b; f_lock_wipes_wscripts := c; f_lock_wipes_last := d;
-     f_unlock_skips_keyless := e; f_keyless_not_queued := f; f_change_rejects_empty := g |}.
+     f_unlock_skips_keyless := e; f_keyless_not_queued := f; f_change_rejects_empty := g;
+     f_privkey_checks_first := h; f_unlock_preloads := i |}.
+Definition mkF (a b c d e f g : bool) : facts := mkF9 a b c d e f g true true.
 
 Definition last_rc (F : facts) (ops : list op) : option rc := last (map Some (snd (run F (init 4 9 1) ops))) None.
 Definition after (F : facts) (ops : list op) : state := exec F (init 4 9 1) ops.
@@ -89,9 +91,31 @@ Theorem C05_refuted_without_empty_passphrase_check :
 Proof. vm_compute. repeat split; reflexivity. Qed.
 Print Assumptions C05_refuted_without_empty_passphrase_check.
 
+(** managedAddress.PrivKey with its lock test only on the path that decrypts:
+    an address object that still holds its clear text - one the manager no
+    longer tracks (the result of DeriveFromKeyPath or ForEachAccountAddress, an
+    address evicted by MarkUsed) and the caller kept across Lock - hands out
+    the key while the manager is locked. *)
+Theorem C05_refuted_without_lock_test_in_privkey :
+  let F := mkF9 true true true true true true true false true in
+  step F (init 4 9 1) (OpHeldPrivKey true true) = (init 4 9 1, ROk) /\ locked (init 4 9 1) = true /\
+  step all_true (init 4 9 1) (OpHeldPrivKey true true) = (init 4 9 1, RLocked).
+Proof. vm_compute. repeat split; reflexivity. Qed.
+Print Assumptions C05_refuted_without_lock_test_in_privkey.
+
+(** InvalidateAccountCache drops an account that still has addresses waiting
+    for their private key: Unlock reloads it while the manager is still locked
+    (no private key), ignores the ECPrivKey error and dereferences nil. *)
+Theorem C05_refuted_without_account_preload_in_unlock :
+  let ops := [OpNextAddr 0 0 false; OpInvalidate 0 0; OpUnlock 1] in
+  last_rc (mkF9 true true true true true true true true false) ops = Some RPanic /\
+  last_rc all_true ops = Some ROk /\ locked (after all_true ops) = false.
+Proof. vm_compute. repeat split; reflexivity. Qed.
+Print Assumptions C05_refuted_without_account_preload_in_unlock.
+
 (* ------------------------------------------------------------------ the tree that is checked *)
 
-(** The source has the seven behaviours (see Generated/LockFacts.v for what
+(** The source has the nine behaviours (see Generated/LockFacts.v for what
     the extractor saw).  Fails to compile when one of them is missing. *)
 Theorem C05_facts_of_this_tree : facts_ok the_facts.
 Proof. repeat split; exact eq_refl. Qed.
@@ -101,11 +125,14 @@ Print Assumptions C05_facts_of_this_tree.
     not): private-key export, derivation by path (both variants), secret-script
     access, private/script decryption and encryption, account creation, key
     import and secret-script import return a locked / watching-only error and
-    no key material, and leave the state as the address lookup left it.
+    no key material, and leave the state as the address lookup left it.  The
+    last two clauses are about address OBJECTS the caller kept from earlier
+    operations: whatever such an object holds, and whether or not the manager
+    still tracks it, PrivKey/ExportPrivKey and Script on it fail the same way.
     (ImportPrivateKey on a watching-only manager is documented to succeed and to
     keep the public key only: exactly that is stated.) *)
 Theorem C05_access_control : access_control_statement the_facts.
-Proof. exact (access_control the_facts eq_refl). Qed.
+Proof. exact (access_control the_facts eq_refl eq_refl). Qed.
 Print Assumptions C05_access_control.
 
 (** (i), (iii) For all histories: a locked or watching-only manager holds no
@@ -185,10 +212,11 @@ Example C05_nonvacuous :
   let ops := [OpNextAddr 0 0 false; OpNewWatchAccount 2; OpAcctProps 2 1; OpUnlock 1;
               OpImportPriv 0 5; OpImportScript 0 6 KP2SH true; OpImportScript 0 7 KWitness true;
               OpImportScript 1 8 KTaproot true; OpDeriveCache 0 0 0 3; OpPrivKey 0 (KChain 0 0 0);
+              OpMarkUsed 0 (KChain 0 0 0); OpForEach 0 0; OpInvalidate 0 0; OpNextAddr 0 0 false;
               OpChangePriv 1 6] in
   let s := exec the_facts (init 4 9 1) ops in
   locked s = false /\ wiped (sm s) = false /\ cur_pass s = Some 6 /\
-  snd (run the_facts (init 4 9 1) ops) = [ROk; ROk; ROk; ROk; ROk; ROk; ROk; ROk; ROk; ROk; ROk] /\
+  snd (run the_facts (init 4 9 1) ops) = [ROk; ROk; ROk; ROk; ROk; ROk; ROk; ROk; ROk; ROk; ROk; ROk; ROk; ROk; ROk] /\
   snd (run the_facts s [OpUnlock 1; OpPrivKey 0 (KChain 0 0 0); OpScript 0 (KScr 7); OpDeriveCache 0 0 0 3;
                         OpOpen 9; OpUnlock 1; OpUnlock 6; OpPrivKey 0 (KChain 0 0 0); OpLock])
     = [RWrongPass; RLocked; RLocked; RLocked; ROk; RWrongPass; ROk; ROk; ROk] /\
